@@ -20,7 +20,17 @@ func sameRdev(st fs.FileInfo, rdev int32) bool {
 
 func (rt *Transfer) createDevice(f *File, st fs.FileInfo) error {
 	base := filepath.Base(f.Name)
-	parentDir, err := rt.DestRoot.OpenFile(filepath.Dir(f.Name), 0, 0)
+	// The parent of a list entry is a directory of the list, never a symbolic
+	// link. Do not let *os.Root resolve one in the last position: a link whose
+	// target ends in a slash ("l" -> "abs/", "abs" -> "/elsewhere") makes it
+	// hand out a directory outside the root.
+	parent := filepath.Dir(f.Name)
+	if pst, err := rt.DestRoot.Lstat(parent); err != nil {
+		return fmt.Errorf("Lstat(parent(%s)): %v", f.Name, err)
+	} else if !pst.IsDir() {
+		return fmt.Errorf("parent of %s is not a directory", f.Name)
+	}
+	parentDir, err := rt.DestRoot.OpenFile(parent, 0, 0)
 	if err != nil {
 		return fmt.Errorf("Open(parent(%s)): %v", f.Name, err)
 	}
